@@ -6,6 +6,7 @@ package interp
 import (
 	"encoding/binary"
 	"fmt"
+	"go/token"
 	"go/types"
 	"reflect"
 
@@ -252,4 +253,78 @@ func init() {
 	externals["math/bits.Len32"] = bitsLen(32)
 	externals["math/bits.Len16"] = bitsLen(16)
 	externals["math/bits.Len8"] = bitsLen(8)
+}
+
+func init() {
+	externals["(*strings.Builder).copyCheck"] = noop
+	externals["(*strings.Builder).String"] = func(fr *frame, args []value) value {
+		b := (*args[0].(*value)).(structure)
+		buf, _ := b[1].([]value)
+		return normalizeStr(buf)
+	}
+	externals["strings.Join"] = func(fr *frame, args []value) value {
+		elems := args[0].([]value)
+		sep := strBytes(args[1])
+		var out []value
+		for i, e := range elems {
+			if i > 0 {
+				out = append(out, sep...)
+			}
+			out = append(out, strBytes(e)...)
+		}
+		return normalizeStr(out)
+	}
+	externals["github.com/status-im/keycard-go/hexutils.BytesToHex"] = func(fr *frame, args []value) value {
+		const hexd = "0123456789ABCDEF"
+		var sb []byte
+		for _, e := range args[0].([]value) {
+			b, ok := e.(uint8)
+			if !ok {
+				return "<symbolic bytes>"
+			}
+			sb = append(sb, hexd[b>>4], hexd[b&15])
+		}
+		return string(sb)
+	}
+}
+
+// sync/atomic: plain memory operations (execution is single-threaded)
+func init() {
+	load := func(fr *frame, args []value) value { return *args[0].(*value) }
+	store := func(fr *frame, args []value) value { *args[0].(*value) = args[1]; return nil }
+	add := func(fr *frame, args []value) value {
+		p := args[0].(*value)
+		*p = binop(token.ADD, nil, *p, args[1])
+		return *p
+	}
+	swap := func(fr *frame, args []value) value {
+		p := args[0].(*value)
+		old := *p
+		*p = args[1]
+		return old
+	}
+	cas := func(fr *frame, args []value) value {
+		p := args[0].(*value)
+		eq := binop(token.EQL, nil, *p, args[1])
+		ok := false
+		switch e := eq.(type) {
+		case bool:
+			ok = e
+		case sv:
+			ok = cur.branch(e.t)
+		}
+		if ok {
+			*p = args[2]
+		}
+		return ok
+	}
+	for _, t := range []string{"Int32", "Int64", "Uint32", "Uint64", "Uintptr", "Pointer"} {
+		externals["sync/atomic.Load"+t] = load
+		externals["sync/atomic.Store"+t] = store
+		externals["sync/atomic.Swap"+t] = swap
+		externals["sync/atomic.CompareAndSwap"+t] = cas
+		if t != "Pointer" {
+			externals["sync/atomic.Add"+t] = add
+		}
+	}
 }
